@@ -92,12 +92,12 @@ def sym_items(V, spec_id, limit=None, strs=True):
 
 
 def limit_for(V, spec_id, group):
-    return V.T(5 if spec_id == 'onerr' or group != 'plain' else 6, 9)
+    return V.T(5 if spec_id == 'onerr' or group != 'plain' else 6, 7 if group != 'plain' else 8)
 
 
 def bounds_text(spec, group, base):
     return ('declaration %r (fields %s) as a %s; input = solver-chosen subset (and order: as listed or reversed) of the key '
             'vocabulary [accepted spellings, case variants, one unknown key; 6 keys quick (5 with an option group or for '
-            'onerr), 9 thorough] with unbounded symbolic int values and at most one key (first or last present) carrying '
+            'onerr), 8 thorough (7 with an option group)] with unbounded symbolic int values and at most one key (first or last present) carrying '
             '"x" (invalid) or "5" (convertible); class-level option group %r symbolic: %s' % (
                 spec, ', '.join(f['name'] for f in dcspec.SPECS[spec]), base, group, GROUPS[group] or 'none'))
